@@ -75,10 +75,13 @@ class Action:
 
         old_to_new_parameter_names: the mapping between the old and new parameter names.
         """
-        ordered_old_signature = list(self.signature.keys())
-        for old_param_name in ordered_old_signature:
-            new_param_name = old_to_new_parameter_names[old_param_name]
-            self.signature[new_param_name] = self.signature.pop(old_param_name)
+        # build the renamed signature first: the new names may overlap the old ones (e.g. a swap).
+        renamed_signature = {
+            old_to_new_parameter_names[old_param_name]: param_type
+            for old_param_name, param_type in self.signature.items()
+        }
+        self.signature.clear()
+        self.signature.update(renamed_signature)
 
         self.preconditions.change_signature(old_to_new_parameter_names)
         for effect in self.discrete_effects:
@@ -87,4 +90,25 @@ class Action:
         for effect in self.numeric_effects:
             effect.change_signature(old_to_new_parameter_names)
 
-        # TODO: change the signature of the conditional and universal effects.
+        # the literals are hashed by their text, so the sets are rebuilt after the renaming
+        # (through a list, since copying a set reuses the stored hashes).
+        self.discrete_effects = set(list(self.discrete_effects))
+        universal_conditional_effects = [
+            conditional_effect
+            for universal_effect in self.universal_effects
+            for conditional_effect in universal_effect.conditional_effects
+        ]
+        for conditional_effect in [
+            *self.conditional_effects,
+            *universal_conditional_effects,
+        ]:
+            conditional_effect.antecedents.change_signature(old_to_new_parameter_names)
+            for effect in conditional_effect.discrete_effects:
+                effect.change_signature(old_to_new_parameter_names)
+
+            for effect in conditional_effect.numeric_effects:
+                effect.change_signature(old_to_new_parameter_names)
+
+            conditional_effect.discrete_effects = set(
+                list(conditional_effect.discrete_effects)
+            )
